@@ -89,6 +89,10 @@ var tagCorpus = [][2]string{
 	{"tags:1=2", "n1:1,1:1=1;1=2 n2:1,1:1=2;1=1 w10:1,2:1=1;2=2"},
 	{"tags:1=0|2", "n1:1,1:1=1;1=0 n2:1,1:1=3;1=2 n3:1,1:1=1;1=3 r1:n3:1=0;1=1"},
 	{"tags:2=;1=1", "n1:1,1:2=0 n2:1,1:1=0 n3:1,1:1=2;1=1 w1:2,3:-"},
+	// wanted key / value is a proper prefix of the object's key / value, and the other way round
+	{"tags:1=1", "n1:1,1:1=12 n2:1,1:12=1 n3:1,1:1=1 w1:1,2:12=12"},
+	{"tags:12=12", "n1:1,1:1=12 n2:1,1:12=1 n3:1,1:1=1 w1:1,2:12=12"},
+	{"tags:1=", "n1:1,1:12=1 n2:1,1:2=1 w1:1,2:12=0"},
 }
 
 type docGen struct {
@@ -152,6 +156,10 @@ func (g docGen) tags(p float64) [][2]int {
 			t = append([][2]int{{1, 0}}, t...)
 		case 2:
 			t = append(t, [2]int{2, 0})
+		case 3: // a value / a key of which the wanted one is a proper PREFIX ("v12" / "k12" against "v1" / "k1")
+			t = append(t, [2]int{1, 12})
+		case 4:
+			t = append(t, [2]int{12, 1})
 		}
 	}
 	return t
